@@ -296,6 +296,21 @@ struct Walk<tracked>
 {
   static void go(tracked const &x, Ptrs &out) { out.push_back(&x); }
 };
+// an element whose move constructor is NOT noexcept (but which is copyable): generic code that uses
+// std::move_if_noexcept would copy it; the library promises to move
+struct tracked_mt : tracked
+{
+  explicit tracked_mt(int origin) : tracked(origin) {}
+  tracked_mt(tracked_mt const &o) : tracked(static_cast<tracked const &>(o)) {}
+  tracked_mt(tracked_mt &&o) noexcept(false) : tracked(static_cast<tracked &&>(o)) {}
+  tracked_mt &operator=(tracked_mt const &o) { tracked::operator=(static_cast<tracked const &>(o)); return *this; }
+  tracked_mt &operator=(tracked_mt &&o) noexcept(false) { tracked::operator=(static_cast<tracked &&>(o)); return *this; }
+};
+template <>
+struct Walk<tracked_mt>
+{
+  static void go(tracked_mt const &x, Ptrs &out) { out.push_back(&x); }
+};
 template <typename T>
 struct Walk<T, std::enable_if_t<std::is_base_of_v<tracked_fn_base, T>>>
 {
